@@ -247,7 +247,7 @@ pub fn run(ctx: &Ctx, which: &str) -> ! {
         let j10 = c10_judge(&spec.sys, &spec.name);
         let judge: &(dyn Fn(&Exec) -> Vec<Violation> + Sync) = if which == "C03" { &j03 } else { &j10 };
         let instant: Option<&(dyn Fn(&Files) -> Option<(String, String)> + Sync)> = if which == "C10" { Some(&inst) } else { None };
-        let cap = if thorough { 60_000 } else { 6_000 };
+        let cap = if thorough { 200_000 } else { 40_000 };
         let out = explore(&envs, &spec.sys, bound, kill, instant, judge, &outcome, cap);
         tot.schedules += out.schedules;
         tot.steps += out.steps;
@@ -276,14 +276,16 @@ pub fn run(ctx: &Ctx, which: &str) -> ! {
     for spec in &specs {
         run_spec(spec, bound, false, &mut tot, &mut violations, &mut sample);
     }
+    // three servers (a lock holder, a waiter queued behind it, and a late arrival) at bound 2
+    for spec in triple_systems().into_iter().take(if thorough { 4 } else { 1 }) {
+        run_spec(&spec, 2, false, &mut tot, &mut violations, &mut sample);
+    }
     if thorough {
         // bound 3 on the focused pairs; three servers at bound 1
         for spec in pair_systems(&quick_pairs, &[false, true]).into_iter().chain(pair_systems(&[("P2", "P10"), ("P4", "P10"), ("P7", "P2"), ("P11", "P1")], &[true])) {
             run_spec(&spec, 3, false, &mut tot, &mut violations, &mut sample);
         }
-        for spec in triple_systems() {
-            run_spec(&spec, 1, false, &mut tot, &mut violations, &mut sample);
-        }
+
     }
     if which == "C10" {
         // (b) crash sub-exploration: one kill at any point, preemption bound 1 around it
@@ -354,6 +356,8 @@ fn triple_systems() -> Vec<PairSpec> {
     let progs = programs(true);
     let get = |n: &str| progs.iter().find(|(k, _)| *k == n).map(|(_, p)| p.clone()).unwrap_or_default();
     vec![
+        // a holder that does not touch f, a waiter queued behind it, and a late arrival: both followers expect c0
+        PairSpec { name: "P8||P1||P2 on {f:c0}".into(), sys: System { init: init_tree(true), programs: vec![get("P8"), get("P1"), get("P2")], external: vec![] } },
         PairSpec { name: "P1||P2||P4 on {f:c0}".into(), sys: System { init: init_tree(true), programs: vec![get("P1"), get("P2"), get("P4")], external: vec![] } },
         PairSpec { name: "P1||P2||P5 on {f:c0}".into(), sys: System { init: init_tree(true), programs: vec![get("P1"), get("P2"), get("P5")], external: vec![] } },
         PairSpec { name: "P3||P9||P6 on {f:c0}".into(), sys: System { init: init_tree(true), programs: vec![get("P3"), get("P9"), get("P6")], external: vec![] } },
